@@ -193,6 +193,12 @@ def u64 (i : Int) : Nat := (i % (two64 : Int)).toNat
 /-- Go's `i%2 == 1` on a signed integer (false for negative odd numbers). -/
 def goOdd (i : Int) : Bool := Int.tmod i 2 == 1
 
+/-- The position the verification loop actually walks: its binary digits are the parity tests
+`idx%2 == 1` of the successively halved index (`levels` of them). -/
+def pathIndex : Nat → Int → Nat
+  | 0, _ => 0
+  | l + 1, idx => (if goOdd idx then 1 else 0) + 2 * pathIndex l (Int.tdiv idx 2)
+
 /-- Outcome of the verification loop. -/
 inductive Climb where
   | panic
